@@ -121,7 +121,7 @@ TEXT["C18"] = dict(engine="seqmc", design_ref="DESIGN.md 6 C18",
     note="trusted: the ownership-table reference and payload accounting in checks/C18.cpp; canonical state ignores payload ids")
 TEXT["C20"] = dict(engine="seqmc", design_ref="DESIGN.md 6 C20",
     technique="exhaustive enumeration of container kind x length x value category x adaptor x iteration style on the real adaptors",
-    level="model checking (degenerate: one-step histories): every combination of 11 container kinds (vector, deque, list, map, std::array<0..4>, "
+    level="model checking (degenerate: one-step histories): every combination of 12 container kinds (vector, deque, list, map, set, std::array<0..4>, "
           "fixed_vector full / with spare capacity, built-in arrays, initializer lists) x lengths 0..4 x lvalue/const/temporary x enumerate/"
           "reverse x iteration styles (range-for, ++it, it++, *it++) is executed; order, indices 0..n-1, exactly-once, aliasing by address and "
           "write-through, and liveness of temporaries for the whole loop are judged",
